@@ -116,7 +116,7 @@ class ChromBuilder:
 
 
 def gen_chain_rgfa(rng, n_chrom=None, scaffolds=None, id_style=None, defects=None, len_hi=20,
-                   end_style=None, kinds=None, names=None, singletons=0):
+                   end_style=None, kinds=None, names=None, singletons=0, contig_major=0.0):
     """defects: dict chrom_index -> one of 'tip', 'cycle3', 'cycle3_inner', 'hap_ap' (non-chain
     shapes) ; 'joined' joins chromosome i with i+1 through a haplotype node."""
     g = Graph()
@@ -207,7 +207,36 @@ def gen_chain_rgfa(rng, n_chrom=None, scaffolds=None, id_style=None, defects=Non
             for x in (a, c, e):
                 t = b.ref()
                 b.link(x, "+", t, "+")
-        g.chroms.append({"name": name, "nodes": b.nodes, "defect": d})
+        entry = {"name": name, "nodes": b.nodes, "defect": d}
+        if d is None and len(b.scaffolds) >= 2 and rng.random() < contig_major:
+            # one assembly contig that has more segments in this chromosome than the reference itself
+            # (several multi-segment alleles between consecutive scaffold nodes), aligned to the reverse
+            # strand so that its offsets fall along the reference: the component is *named* after it
+            # (majority vote over SN) while the chain is still the reference's
+            cname = rng.choice(["HG00733#1#JAHEPQ010000097.1", "NA21309#2#JAHEPC010000450.1", "h1tg000007l", "asm5_ctg_22"]) + ("" if ci == 0 else f"_{ci}")
+            cursor = 5_000_000 + rng.randint(0, 1000)
+            rank = 1 + len(haps) + ci
+            n_ref = sum(1 for n in b.nodes if g.nodes[n].rank == 0)
+            n_other = len(b.nodes) - n_ref
+            added = 0
+            pairs = list(zip(b.scaffolds, b.scaffolds[1:]))
+            k = 0
+            while added < n_ref + n_other + 2:
+                u, v = pairs[k % len(pairs)]
+                k += 1
+                prev, prev_o = u, "+"
+                for _ in range(rng.randint(2, 4)):
+                    ln = rng.randint(1, len_hi)
+                    cursor -= ln + rng.randint(0, 40)
+                    nid = g.add_node(ids.new(hap=True), cname, cursor, rand_seq(rng, ln), rank)
+                    b.nodes.append(nid)
+                    added += 1
+                    b.link(prev, prev_o, nid, "-", rank)
+                    prev, prev_o = nid, "-"
+                b.link(prev, prev_o, v, "+", rank)
+            entry["ref"] = name
+            entry["name"] = cname
+        g.chroms.append(entry)
     for k in range(singletons):  # a chromosome that is one isolated segment without any link (chrM-like)
         nm = ["chrMT", "chrUn_1", "chrEBV"][k % 3]
         nid = g.add_node(ids.new(), nm, 0, rand_seq(rng, rng.randint(1, len_hi)), 0)
@@ -219,7 +248,7 @@ def gen_chain_rgfa(rng, n_chrom=None, scaffolds=None, id_style=None, defects=Non
                 h, rk = b.hap()
                 b.link(rng.choice(b.scaffolds), "+", h, "+", rk)
                 b2.link(h, "+", rng.choice(b2.scaffolds), "+", rk)
-    g.ref_order = {c["name"]: [n for n in c["nodes"] if g.nodes[n].rank == 0] for c in g.chroms}
+    g.ref_order = {c.get("ref", c["name"]): [n for n in c["nodes"] if g.nodes[n].rank == 0] for c in g.chroms}
     return g
 
 
